@@ -203,7 +203,27 @@ func c18visit(p *core.Prog, v *ssa.Function) (bool, string) {
 	if len(v.Params) != 3 {
 		return false, "visitor does not have the shape (receiver, request, index)"
 	}
-	recv, req, idx := v.Params[0], v.Params[1], v.Params[2]
+	recv, req := v.Params[0], v.Params[1]
+	var idx ssa.Value = v.Params[2]
+	// loop formulation: the index is a phi of the parameter and itself + 1
+	var loopStep *ssa.BinOp
+	core.Instrs(v, func(ins ssa.Instruction) {
+		if phi, ok := ins.(*ssa.Phi); ok && len(phi.Edges) == 2 {
+			var hasParam bool
+			var step *ssa.BinOp
+			for _, e := range phi.Edges {
+				if e == ssa.Value(v.Params[2]) {
+					hasParam = true
+				}
+				if b, isB := e.(*ssa.BinOp); isB && b.Op == token.ADD && b.X == ssa.Value(phi) && core.IsIntConst(b.Y, 1) {
+					step = b
+				}
+			}
+			if hasParam && step != nil {
+				idx, loopStep = phi, step
+			}
+		}
+	})
 	var icall, tcall, rec *ssa.Call
 	nDyn := 0
 	core.Instrs(v, func(ins ssa.Instruction) {
@@ -223,15 +243,15 @@ func c18visit(p *core.Prog, v *ssa.Function) (bool, string) {
 			}
 		}
 	})
-	if icall == nil || tcall == nil || rec == nil || nDyn != 1 {
-		return false, "expected one interceptor call, one transport call and one recursive step"
+	if icall == nil || tcall == nil || (rec == nil && loopStep == nil) || nDyn != 1 {
+		return false, "expected one interceptor call, one transport call and one step to the next index (recursion or loop)"
 	}
 	// interceptor call: *interceptors[index](request)
 	fnv := core.Resolve(icall.Call.Value)
 	okI := false
 	if u, ok := fnv.(*ssa.UnOp); ok { // deref of *Interceptor
 		if u2, ok := core.Resolve(u.X).(*ssa.UnOp); ok {
-			if ia, ok := u2.X.(*ssa.IndexAddr); ok && ia.Index == ssa.Value(idx) && core.FieldKey(ia.X) == "SimpleHTTPDef.interceptors" && core.FieldBase(ia.X) == recv.Name() {
+			if ia, ok := u2.X.(*ssa.IndexAddr); ok && ia.Index == idx && core.FieldKey(ia.X) == "SimpleHTTPDef.interceptors" && core.FieldBase(ia.X) == recv.Name() {
 				okI = true
 			}
 		}
@@ -248,7 +268,7 @@ func c18visit(p *core.Prog, v *ssa.Function) (bool, string) {
 	}
 	edgeOK := false
 	for _, m := range core.EdgeCmps(tcall.Block()) {
-		if m.X == ssa.Value(idx) && m.Op == token.GEQ {
+		if m.X == idx && m.Op == token.GEQ {
 			if call, ok := m.Y.(*ssa.Call); ok {
 				if g := core.Callee(&call.Call); g != nil && g.Name() == "Len" && core.FieldKey(call.Call.Args[0]) == "SimpleHTTPDef.interceptors" {
 					edgeOK = true
@@ -260,12 +280,18 @@ func c18visit(p *core.Prog, v *ssa.Function) (bool, string) {
 		return false, "the transport is not restricted to the index >= Len() edge: it can run before all interceptors have been visited"
 	}
 	// the interceptor call must not be on the transport edge and must be on every other path exactly once
-	imin, imax := core.PathCount(v, func(ins ssa.Instruction) int {
+	weightI := func(ins ssa.Instruction) int {
 		if ins == ssa.Instruction(icall) {
 			return 1
 		}
 		return 0
-	}, func(b *ssa.BasicBlock) bool { return b == tcall.Block() })
+	}
+	skipT := func(b *ssa.BasicBlock) bool { return b == tcall.Block() }
+	imin, imax := core.PathCount(v, weightI, skipT)
+	if loopStep != nil {
+		// per iteration: from the loop header, one traversal
+		imin, imax = core.PathCountIter(idx.(*ssa.Phi).Block(), nil, weightI, skipT)
+	}
 	if imin != 1 || imax != 1 {
 		return false, fmt.Sprintf("interceptor[index] is called %d..%d times before continuing", imin, imax)
 	}
@@ -315,7 +341,10 @@ func c18visit(p *core.Prog, v *ssa.Function) (bool, string) {
 					errOK = true
 				}
 			}
-			if rec.Block() == okB || okB.Dominates(rec.Block()) {
+			if rec != nil && (rec.Block() == okB || okB.Dominates(rec.Block())) {
+				contOK = true
+			}
+			if rec == nil && loopStep != nil && (loopStep.Block() == okB || okB.Dominates(loopStep.Block())) {
 				contOK = true
 			}
 		}
@@ -325,6 +354,10 @@ func c18visit(p *core.Prog, v *ssa.Function) (bool, string) {
 	}
 	if !contOK {
 		return false, "the chain continues even when the interceptor failed"
+	}
+	if rec == nil {
+		// loop: the request and receiver are the same values by construction; the step is index+1 on the no-error edge
+		return true, "loop over index: interceptors[index](request) once → error aborts (nil, err) → else index+1 → transport only at index >= Len(), result passed through"
 	}
 	// recursion: same receiver, same request, index+1
 	step, ok := rec.Call.Args[2].(*ssa.BinOp)
